@@ -44,7 +44,7 @@ type mapRangeClass struct {
 
 var mapRangePatterns = []string{"no-reach", "point-update", "max-min", "set-insert", "count", "collect-sort", "any-witness-error"}
 
-func funcDeclName(fd *ast.FuncDecl) string {
+func mrFuncDeclName(fd *ast.FuncDecl) string {
 	if fd.Recv != nil && len(fd.Recv.List) == 1 {
 		return "(" + types.ExprString(fd.Recv.List[0].Type) + ")." + fd.Name.Name
 	}
@@ -65,7 +65,7 @@ func mapRangeSites(w *world, rels []string) []mapRangeSite {
 				var node ast.Node = d
 				switch d := d.(type) {
 				case *ast.FuncDecl:
-					owner = funcDeclName(d)
+					owner = mrFuncDeclName(d)
 				case *ast.GenDecl:
 					owner = "package-level " + d.Tok.String()
 				}
